@@ -1589,4 +1589,83 @@ theorem matchGeometry_chain {α : Type} (src : Vol α) (tgt : Geom) (tol : Rat) 
   exact h1.trans h2
 
 
+/-! ## tolerances above 1 -/
+
+
+/-- Cauchy–Schwarz for unit vectors (Lagrange identity) -/
+theorem dot_unit_bounds (a b : V3) (ha : V3.dot a a = 1) (hb : V3.dot b b = 1) :
+    -1 ≤ V3.dot a b ∧ V3.dot a b ≤ 1 := by
+  obtain ⟨a0, a1, a2⟩ := a
+  obtain ⟨b0, b1, b2⟩ := b
+  simp only [V3.dot] at *
+  have lag : (a0 * b0 + a1 * b1 + a2 * b2) ^ 2 =
+      (a0 * a0 + a1 * a1 + a2 * a2) * (b0 * b0 + b1 * b1 + b2 * b2)
+      - ((a1 * b2 - a2 * b1) ^ 2 + (a2 * b0 - a0 * b2) ^ 2 + (a0 * b1 - a1 * b0) ^ 2) := by ring
+  rw [ha, hb] at lag
+  have hsq : (a0 * b0 + a1 * b1 + a2 * b2) ^ 2 ≤ 1 := by
+    rw [lag]
+    nlinarith [sq_nonneg (a1 * b2 - a2 * b1), sq_nonneg (a2 * b0 - a0 * b2), sq_nonneg (a0 * b1 - a1 * b0)]
+  constructor <;> nlinarith [hsq]
+
+/-- with a tolerance above 1 the alignment test accepts *every* pair of unit vectors (and the
+"integer scale" test can no longer fail: a number is never further than 1/2 from its rounding) -/
+theorem mgAlign_tol_gt_one (d s t tol : Rat) (h : 1 < tol) (hd : -1 ≤ d ∧ d ≤ 1) :
+    ∃ st, mgAlign d s t tol = .ok (true, st) := by
+  unfold mgAlign
+  obtain ⟨b1, b2⟩ := roundHalfEven_bounds (s / t)
+  simp only [int_trunc]
+  have c0 : (decide ((if d - 1 / 1 < 0 then -(d - 1 / 1) else d - 1 / 1) < tol) ||
+      decide ((if d + 1 / 1 < 0 then -(d + 1 / 1) else d + 1 / 1) < tol)) = true := by
+    rw [Bool.or_eq_true, decide_eq_true_eq, decide_eq_true_eq]
+    by_cases hpos : 0 ≤ d
+    · left
+      split <;> norm_num <;> linarith [hd.1, hd.2]
+    · right
+      have hneg : d < 0 := not_le.mp hpos
+      split <;> norm_num <;> linarith [hd.1, hd.2]
+  have c4 : decide ((if s / t - ((roundHalfEven (s / t) : Int) : Rat) < 0 then -(s / t - ((roundHalfEven (s / t) : Int) : Rat))
+      else s / t - ((roundHalfEven (s / t) : Int) : Rat)) > tol) = false := by
+    rw [decide_eq_false_iff_not]
+    split <;> linarith
+  simp only [c0, c4]
+  exact ⟨_, rfl⟩
+
+/-- unit vectors: what `unit_vectors()` returns -/
+def UnitDirs (g : Geom) : Prop := ∀ a, V3.dot (g.dir a) (g.dir a) = 1
+
+theorem alignAxis_tol_gt_one (src : Geom) (hs : UnitDirs src) (u : V3) (hu : V3.dot u u = 1) (s tol : Rat) (h : 1 < tol) :
+    ∃ st, alignAxis src u s tol = .ok (0, st) := by
+  obtain ⟨st, hst⟩ := mgAlign_tol_gt_one (V3.dot u (src.dir 0)) s (src.spacing 0) tol h (dot_unit_bounds _ _ hu (hs 0))
+  unfold alignAxis
+  rw [hst]
+  exact ⟨st, rfl⟩
+
+/-- **tolerances above 1**: the alignment loops send all three target axes to source axis 0, so
+`permute_spatial_axes([0, 0, 0])` raises ValueError — for every source and every target, the source
+itself included -/
+theorem matchGeometry_tol_gt_one {α : Type} (src : Vol α) (tgt : Geom) (tol : Rat) (mode : PadMode α) (h : 1 < tol)
+    (hs : UnitDirs src.geom) (ht : UnitDirs tgt) (hfor : forConflict src.geom tgt = false) (hcs : src.geom.cs = tgt.cs) :
+    matchGeometry src tgt tol mode = .error .value := by
+  unfold matchGeometry
+  have hhead : mgHead src.geom.frameOfRef tgt.frameOfRef src.geom.cs tgt.cs = .ok true := by
+    rcases mgHead_spec src.geom tgt with ⟨_, _, hh⟩ | ⟨hbad, _⟩
+    · exact hh
+    · rcases hbad with hb | hb
+      · rw [hfor] at hb; cases hb
+      · exact absurd hcs hb
+  rw [hhead]
+  simp only []
+  obtain ⟨s0, h0⟩ := alignAxis_tol_gt_one src.geom hs (tgt.dir 0) (ht 0) (tgt.spacing 0) tol h
+  obtain ⟨s1, h1⟩ := alignAxis_tol_gt_one src.geom hs (tgt.dir 1) (ht 1) (tgt.spacing 1) tol h
+  obtain ⟨s2, h2⟩ := alignAxis_tol_gt_one src.geom hs (tgt.dir 2) (ht 2) (tgt.spacing 2) tol h
+  unfold matchAlign
+  rw [h0, h1, h2]
+  simp only []
+  have hreq : requiresPermute (mk3 (0 : Ax) 0 0) = true := by decide
+  have hperm : isPerm (mk3 (0 : Ax) 0 0) = false := by decide
+  rw [if_pos hreq]
+  unfold permute permuteGeom
+  simp [hperm]
+
+
 end HdVerif.Match
